@@ -237,6 +237,55 @@ theorem loop_tail (src W R' : Str) (opts : TemplateOptions) (f b : Nat) (T1 : Tm
     simp [compileLoop, finish_at_end src opts _ false, Tmpl.setName, Tmpl.pushElement, Tmpl.elements, Tmpl.mapping, hne]
 
 
+/-- the same with the position table: what is appended to it -/
+theorem loop_tail_pos (src W R' : Str) (opts : TemplateOptions) (f b : Nat) (T1 : Tmpl) (trim : Bool)
+    (hn : src.length = b + W.length + R'.length)
+    (hR : slice? src b src.length = some (W ++ R')) :
+    ∃ extra, compileLoop src opts (f + ((rawTok (b + W.length) src.length).length + 2))
+        { tmplStack := [T1], trimLine := trim, endPos := some b }
+        ((rawTok (b + W.length) src.length).map plainCTok ++ [plainCTok ⟨none, src.length, src.length⟩])
+      = .ok (.mk opts.name (T1.elements ++ (if W ++ R' = [] then [] else
+          [.raw (if trim then stripFirstNewline (trimStartBlank (W ++ R')) else W ++ R')])) (T1.mapping ++ extra)) := by
+  by_cases hR' : R' = []
+  · subst hR'
+    have hdn : b + W.length = src.length := by simp [hn]
+    have hrt : rawTok (b + W.length) src.length = [] := by simp [rawTok, hdn]
+    rw [hrt]
+    simp only [List.length_nil, List.map_nil, List.nil_append, Nat.zero_add, List.append_nil] at *
+    by_cases hW : W = []
+    · subst hW
+      have hbn : src.length = b := by simp [hn]
+      have h1 := loop_step src opts (f + 1) { tmplStack := [T1], trimLine := trim, endPos := some src.length } _
+        ⟨none, src.length, src.length, []⟩ [] [] (step_eoi_at_end src opts (f + 1) src.length [T1] trim)
+      refine ⟨[], ?_⟩
+      rw [show (some b : Option Nat) = some src.length by rw [hbn], show f + 2 = f + 1 + 1 by omega]
+      simp only [plainCTok]
+      rw [h1]
+      simp [compileLoop, finish_at_end src opts T1 trim, Tmpl.setName]
+    · have hne : src.length ≠ b := by
+        have : W.length ≠ 0 := fun h0 => hW (List.eq_nil_of_length_eq_zero h0)
+        omega
+      have h1 := loop_step src opts (f + 1) _ _ ⟨none, src.length, src.length, []⟩ [] []
+        (step_eoi_trailing src W opts (f + 1) b src.length T1 trim hne hR)
+      refine ⟨[lineCol src src.length], ?_⟩
+      rw [show f + 2 = f + 1 + 1 by omega]
+      simp only [plainCTok]
+      rw [h1]
+      simp [compileLoop, finish_at_end src opts _ false, Tmpl.setName, Tmpl.pushElement, Tmpl.elements, Tmpl.mapping, hW]
+  · have hlenR : R'.length ≠ 0 := fun h0 => hR' (List.eq_nil_of_length_eq_zero h0)
+    have hrt : rawTok (b + W.length) src.length = [⟨some .r_raw_text, b + W.length, src.length⟩] := by simp [rawTok]; omega
+    rw [hrt]
+    have hne : W ++ R' ≠ [] := by simp [hR']
+    have h1 := loop_step src opts (f + 2) _ _ ⟨some .r_raw_text, b + W.length, src.length, []⟩ [⟨none, src.length, src.length, []⟩] _
+      (step_raw_after src (W ++ R') opts (f + 2) _ b (b + W.length) src.length T1 trim hR (by simp; omega))
+    have h2 := fun stk => loop_step src opts (f + 1) { tmplStack := stk, trimLine := false, endPos := some src.length } _
+      ⟨none, src.length, src.length, []⟩ [] [] (step_eoi_at_end src opts (f + 1) src.length stk false)
+    refine ⟨[lineCol src (b + W.length)], ?_⟩
+    simp only [List.length_singleton, List.map, List.cons_append, List.nil_append, plainCTok]
+    rw [show f + (1 + 2) = f + 2 + 1 by omega, h1, show f + 2 = f + 1 + 1 by omega, h2]
+    simp [compileLoop, finish_at_end src opts _ false, Tmpl.setName, Tmpl.pushElement, Tmpl.elements, Tmpl.mapping, hne]
+
+
 theorem rawTok_rule (a b : Nat) : ∀ t ∈ rawTok a b, (t.rule == some Rule.r_escape) = false := by
   intro t ht
   unfold rawTok at ht
